@@ -16,6 +16,7 @@ var monitors = map[string]func(*vk.Ctx){
 	"C14": runC14,
 	"C15": runC15,
 	"C16": runC16,
+	"C17": runC17,
 }
 
 func main() {
